@@ -100,6 +100,12 @@ def thorough_extra():
     ]
 
 
+ALL_CALLS = ops.BINARY + ops.UNARY + ops.REDUCE + ('divmod', 'getitem', 'reshape', 'ravel', 'transpose', 'swapaxes', 'moveaxis', 'expand_dims', 'broadcast_to', 'repeat',
+                                                  'stack', 'concatenate', 'take', 'choose', 'compress', 'dot', 'matmul', 'vdot', 'cross', 'einsum', 'trace', 'diagonal',
+                                                  'det', 'inv', 'norm', 'searchsorted', 'interp')
+REJECTING_CALLS = ('add', 'greater', 'sum', 'getitem', 'reshape', 'transpose', 'swapaxes', 'broadcast_to', 'stack', 'concatenate', 'take', 'dot', 'matmul', 'vdot', 'cross',
+                   'einsum', 'diagonal', 'det', 'inv', 'searchsorted', 'interp')
+
 SIM_FAMILY = fam('sim', 'AllOps', 'AllLeaves', [LINEB, LINEG, LINEU, RECTB, PRODYX, PRODXY], maxops=4, maxleaves=4, maxunused=2, wide=0)
 
 
@@ -209,6 +215,8 @@ def unsupported(ex):
         return 'no dispatch for this call / keyword'
     if isinstance(ex, ValueError) and ('no total order' in s or 'not defined for complex' in s):
         return 'declared unsupported for complex'
+    if isinstance(ex, (ValueError, TypeError)) and ('is not supported' in s or 'Use logical operators to compare booleans' in s):
+        return 'declared unsupported: ' + s[:60]
     return None
 
 
@@ -283,7 +291,8 @@ def unstable(nodes):
     for n in nodes:
         d = ops.seq(n['d'])
         ix = n['dt'] in ('f', 'c') and (not n['dy'] or n['op'] in ops.INEXACT or any(inexact[j - 1] for j in d))
-        if n['op'] in ops.DISCONT and any(inexact[j - 1] for j in d):
+        sel = ops.DISCONT_OPERANDS.get(n['op'])
+        if n['op'] in ops.DISCONT and any(inexact[j - 1] for i, j in enumerate(d) if sel is None or i in sel):
             return True
         inexact.append(ix or (n['dt'] in ('b', 'i') and any(inexact[j - 1] for j in d)))
     return False
@@ -291,6 +300,9 @@ def unstable(nodes):
 
 def key_for(nodes, k, what):
     op, desc = ops.descriptor(nodes, k)
+    n = nodes[k - 1]
+    if what.startswith(('eval-', 'value', 'evaluated')) and (0 in ops.seq(n['sh']) or any(0 in ops.seq(nodes[d - 1]['sh']) for d in ops.seq(n['d']))):
+        return 'zero-size-array:' + what           # one root cause irrespective of the call
     return '{}:{}:{}'.format(op, desc, what)
 
 
@@ -390,6 +402,9 @@ def replay(item):
             return out
         k, what, ex2 = first_deviation()
         ex2 = ex2 or ex
+        if unsupported(ex2):
+            out.update(status='skip', why='not implemented by nutils (raised at evaluation): {} [{}]'.format(nodes[k - 1]['op'], unsupported(ex2)))
+            return out
         out.update(status='violation', key=key_for(nodes, k, 'eval-exception:' + type(ex2).__name__),
                    what='sample.eval of {} on {} raises {}: {}'.format(out['expr'], out['smp'], type(ex2).__name__, str(ex2)[:120]))
         return out
@@ -493,7 +508,7 @@ def run(rep):
     results = {}
 
     def bfs():
-        results['bfs'] = run_builder('c07-bfs', fams, coverage=True, timeout=1500)
+        results['bfs'] = run_builder('c07-bfs', fams, timeout=1500)
 
     def mutant():
         spec_mutant(rep)
@@ -525,10 +540,6 @@ def run(rep):
     rep.add_tlc(res, exhaustive=True)
     collect(res, tables, progs)
     nbfs = len(progs)
-    # vacuity guard: every call family of the machine fired
-    dead = [a for a, (d, t) in res.coverage.items() if a.startswith('Do') and t == 0]
-    if dead:
-        raise RuntimeError('FuncBuilder actions never enabled: {}'.format(dead))
     for i in range(nsim):
         r = results['sim', i]
         if r.violated:
@@ -536,6 +547,17 @@ def run(rep):
         rep.add_tlc(r, exhaustive=False)
         collect(r, tables, progs)
     rep.lap('TLC: {} exhaustive + {} simulated behaviours'.format(nbfs, len(progs) - nbfs))
+    # vacuity guard (TLC's -coverage is pathologically slow on this recursion-heavy spec, so the guard is computed from the
+    # emitted behaviours): every call of the vocabulary produced a value at least once, every shape-checking call a REJECT
+    seen = {}
+    for e in progs.values():
+        r = e['nodes'][-1]
+        seen.setdefault(r['op'], set()).add('value' if r['dt'] in 'bifc' else r['dt'])
+    rep.actions.update({op: sum(1 for e in progs.values() if e['nodes'][-1]['op'] == op) for op in seen})
+    if not only:
+        missing = [op for op in ALL_CALLS if 'value' not in seen.get(op, ())] + [op + ':REJECT' for op in REJECTING_CALLS if 'REJECT' not in seen.get(op, ())]
+        if missing:
+            raise RuntimeError('vacuous: calls never generated by the FuncBuilder machine: {}'.format(missing))
     if sorted(tables) != [1, 2, 3, 4, 5, 6]:
         raise RuntimeError('sample tables missing: {}'.format(sorted(tables)))
     _WORLD = World(tables)
